@@ -222,15 +222,17 @@ func (e *Enc) backEdgeObligations(fr *Frame, b *ssa.BasicBlock, st *State, si in
 			}
 		}
 	}
+	var phis []*ssa.Phi
 	for _, in := range s.Instrs {
 		phi, ok := in.(*ssa.Phi)
 		if !ok {
 			break
 		}
 		saved[phi] = fr.vals[phi]
+		phis = append(phis, phi)
 	}
 	newVals := map[*ssa.Phi]*Val{}
-	for phi := range saved {
+	for _, phi := range phis {
 		newVals[phi] = e.val(fr, phi.Edges[predIdx])
 	}
 	for phi, v := range newVals {
